@@ -272,6 +272,26 @@ func runC38(c *core.Ctx) {
 			return false, false
 		}), succ, "nil return", nil)
 		loops := eng.FindSliceLoopsByBound(fn, func(v ssa.Value) bool { return lenOfSelfField(v, recv, "blocks") })
+		host, hostSucc := fn, succ
+		if len(loops) == 0 {
+			// the scan may sit in a same-package helper answering "found": Verify returns nil only when
+			// the helper says false, and the helper says false only after the scan ran to its end
+			hosts, releaseHosts := hostsWithHelpers(fn)
+			defer releaseHosts()
+			for _, h := range hosts[1:] {
+				ls := eng.FindSliceLoopsByBound(h, func(v ssa.Value) bool { return lenOfSelfField(v, recv, "blocks") })
+				if len(ls) == 0 || h.Signature.Results().Len() != 1 {
+					continue
+				}
+				if cl := callInFn(fn, h); cl != nil {
+					loops, host = ls, h
+					hostSucc = ir.BoolReturnSinks(h, 0, false)
+					c.Attribute(h, fn)
+					eng.Dominates(c, "C38.verify", fn, eng.NamedGuard{Name: "the scan helper found nothing", G: ir.BoolIs(func(x *ssa.Call) bool { return x == cl }, false)}, succ, "nil return", nil)
+					break
+				}
+			}
+		}
 		c.Floor("scan loop in Verify", len(loops), 1)
 		for _, lp := range loops {
 			cmp := lp.Cond.Cond.(*ssa.BinOp)
@@ -295,11 +315,11 @@ func runC38(c *core.Ctx) {
 			c.Decide(okInit, "C38.verify", fn, "scan starts at index int(startHeight − baseHeight)", c.P.Rel(cmp.Pos()), "")
 			c.Decide(okStep, "C38.verify", fn, "scan advances by exactly one block per iteration", c.P.Rel(cmp.Pos()), "")
 			// nil return only after the loop ran to its end
-			eng.Dominates(c, "C38.verify", fn, eng.NamedGuard{Name: "scan reached len(blocks)", G: func(cd ir.Cond) (bool, bool) {
+			eng.Dominates(c, "C38.verify", host, eng.NamedGuard{Name: "scan reached len(blocks)", G: func(cd ir.Cond) (bool, bool) {
 				return cd.If == lp.Cond, false
-			}}, succ, "nil return", nil)
+			}}, hostSucc, "nil return", nil)
 			var found []ir.Edge
-			eng.IterationMustExec(c, "C38.verify", fn, lp.Header, lp.Body, "the scan over blocks", "lookup blocks[i][tx.Hash()]", func(in ssa.Instruction) bool {
+			eng.IterationMustExec(c, "C38.verify", host, lp.Header, lp.Body, "the scan over blocks", "lookup blocks[i][tx.Hash()]", func(in ssa.Instruction) bool {
 				lk, ok := in.(*ssa.Lookup)
 				if !ok || !lk.CommaOk {
 					return false
@@ -336,9 +356,9 @@ func runC38(c *core.Ctx) {
 			})
 			okFound := len(found) > 0
 			for _, e := range found {
-				r := ir.NewReach(fn)
+				r := ir.NewReach(host)
 				r.RunFromBlock(e.To())
-				for _, s := range succ {
+				for _, s := range hostSucc {
 					if r.SinkReachable(s) {
 						okFound = false
 					}
